@@ -330,3 +330,57 @@ func (m *Map) Range(f func(key, value interface{}) bool) {
 		}
 	}
 }
+
+// Cond mirrors sync.Cond.
+type Cond struct {
+	L       Locker
+	waiters []*condWaiter
+	real    *sync.Cond
+}
+
+type condWaiter struct{ woken bool }
+
+// NewCond mirrors sync.NewCond.
+func NewCond(l Locker) *Cond { return &Cond{L: l, real: sync.NewCond(l)} }
+
+func (c *Cond) Wait() {
+	if sched.E == nil {
+		c.real.Wait()
+		return
+	}
+	w := &condWaiter{}
+	c.waiters = append(c.waiters, w)
+	c.L.Unlock()
+	sched.Wait("cond-wait", c, func() bool { return w.woken })
+	c.L.Lock()
+}
+
+func (c *Cond) Signal() {
+	if sched.E == nil {
+		c.real.Signal()
+		return
+	}
+	sched.Op("cond-signal", c)
+	if len(c.waiters) > 0 {
+		c.waiters[0].woken = true
+		c.waiters = c.waiters[1:]
+	}
+}
+
+func (c *Cond) Broadcast() {
+	if sched.E == nil {
+		c.real.Broadcast()
+		return
+	}
+	sched.Op("cond-broadcast", c)
+	for _, w := range c.waiters {
+		w.woken = true
+	}
+	c.waiters = nil
+}
+
+// OnceFunc mirrors sync.OnceFunc.
+func OnceFunc(f func()) func() {
+	var o Once
+	return func() { o.Do(f) }
+}
